@@ -5,14 +5,14 @@ import json, re, sys, os
 log = sys.argv[1]
 rows = []
 for line in open(log):
-    m = re.match(r"(C\d\d)/([ABCD]) rc=(\d+) (\d+)s violations=(\d+) nofail=(\d+) first=\[(.*?)\]\s*(.*)", line)
+    m = re.match(r"(C\d\d)/([A-F]) rc=(\d+) (\d+)s violations=(\d+) nofail=(\d+) first=\[(.*?)\]\s*(.*)", line)
     if not m:
         continue
     pid, letter, rc, secs, viol, nofail, first, rest = m.groups()
     und = re.findall(r"UNDECIDED: ([^|]*)", rest)
     d = "/verif/seeded/%s-%s" % (pid, letter)
     meta = json.load(open(d + "/meta.json"))
-    kind = meta.get("kind") or ("benign" if letter == "D" else "breaking")
+    kind = meta.get("kind") or ("benign" if letter in ("D", "F") else "breaking")
     summary = (meta.get("summary") or "").replace("\n", " ").replace("|", "/")
     expected = 0 if kind == "benign" else 1
     ok = int(rc) == expected
@@ -30,7 +30,7 @@ for line in open(log):
         "command": "git apply patch.diff in a scratch worktree of /repo HEAD; CVSS_REPO=<worktree> python3-vt -m pyvc check %s --tier quick; worktree removed" % pid,
         "exit_code": int(rc), "expected_exit_code": expected, "result": how, "wall_s": int(secs),
     }
-    meta.setdefault("confirmed_by_builder", {"when": "2026-09-26", "how": "scratch worktree of /repo HEAD (tools_confirm2.sh): demo exit 0 on the unchanged tree, git apply ok, pytest still '21 failed, 34 passed' with the same passed ids, demo exit %s with the patch" % ("0" if kind == "benign" else "!= 0"), "worktree_removed": True})
+    meta.setdefault("confirmed_by_builder", {"when": "2026-09-29" if letter in ("E", "F") else "2026-09-26", "how": "scratch worktree of /repo HEAD (tools_confirm2.sh): demo exit 0 on the unchanged tree, git apply ok, pytest still '21 failed, 34 passed' with the same passed ids, demo exit %s with the patch" % ("0" if kind == "benign" else "!= 0"), "worktree_removed": True})
     json.dump(meta, open(d + "/meta.json", "w"), indent=1)
 print("| change | kind | outcome of the property's check | what the change does |")
 print("|---|---|---|---|")
